@@ -20,10 +20,10 @@ def jobs(tier, ws):
         for fmt, lim in lims.items():
             if nd == 3 and tier == 'quick':
                 continue   # two symbolic 64-bit divisions: minutes per instance
-            smax = (1 << 62) if nd <= 1 else (1 << 33) if nd == 2 and tier != 'quick' else (1 << 12)
+            smax = (1 << 62) if nd <= 1 else (1 << 12)   # two symbolic 64-bit factors beyond 2^12 do not finish on any back end (2^33 tried: > 600 s)
             js.append(Job('C18/ncmpio_NC_check_vlen/ndims%d/fmt%d' % (nd, fmt), 'C18', ED, 'C18_vlens.c', enforce='ncmpio_NC_check_vlen',
                           defines=['-DH_vlen', '-DNDIMS=%d' % nd, '-DVLEN_MAX=%dLL' % lim, '-DSHAPE_MAX=%dLL' % smax, '-DNVARS=1'],
-                          canaries=['fits'] + (['too_big'] if nd >= 1 and smax * (smax if nd > 1 else 1) * 8 > lim else []), unwind=5, kind='bounded',
+                          canaries=['fits'] + (['too_big'] if nd >= 1 and smax * (smax if nd > 1 else 1) * 8 > lim else []), unwind=5, kind='bounded', solver=(['--sat-solver', 'cadical'] if nd >= 2 else []),
                           bound='ndims=%d, dimension lengths <= %d, limit of CDF-%d' % (nd, smax, fmt), timeout=600))
     import C03
     js += C03.begins_jobs(tier, 'C18', [(3, 512, 4)] if tier == 'quick' else [(3, 512, 4), (4, 512, 512)])
